@@ -63,6 +63,9 @@ extern int g_latewake_left;
 // Needed where the library creates synchronisation objects lazily: the window between "slot is empty" and "slot filled"
 // contains no other substituted operation (std::atomic_load/store on shared_ptr are real libstdc++ calls).
 extern int g_ctor_sched;
+// opt-in (clients): an extra scheduling point right AFTER a mutex release has taken effect, so that the window between an
+// unlock and the thread's next plain access can be preempted (reset by begin())
+extern int g_post_unlock_sched;
 template <class T>
 class atomic {
     T v;
@@ -186,6 +189,9 @@ struct mutex {
         }
         owner = 0;
         emit("mul " + name_of(this));
+        if (g_post_unlock_sched != 0) {
+            sched();
+        }
     }
     // timed forms (only reachable through timed_mutex / shared_timed_mutex)
     bool try_lock_timed()
